@@ -274,6 +274,12 @@ func post0134Hash(
 
 	concatCounts := ConcatCounts(b.TransactionCount, b.EventCount, sdLength, b.L1DAMode)
 
+	// Both price pairs are part of this hash format; a header without them (the feeder adapter
+	// leaves them nil when the members are absent) cannot have a valid hash.
+	if b.L1DataGasPrice == nil || b.L2GasPrice == nil {
+		return felt.Felt{}, nil, errors.New("missing L1 data gas price or L2 gas price in block header")
+	}
+
 	pricesHash := gasPricesHash(
 		GasPrice{
 			PriceInFri: b.L1GasPriceSTRK,
